@@ -219,9 +219,26 @@ static void hist_case (long idx, vf_rng *r)
                 pixman_box16_t *e = pixman_region_extents (&reg); fprintf (stderr, "%s: region ok=%d n=%d extents=[%d,%d,%d,%d] src clip n=%d cs=%d only=%d\n", z ? "replica" : "live", ok, pixman_region_n_rects (&reg), e->x1, e->y1, e->x2, e->y2, q->src.n_clip, q->src.clip_sources, q->src.has_client_clip_only);
                 for (int i = 0; i < q->src.n_clip; i++) fprintf (stderr, "   clip[%d]=[%d,%d,%d,%d]\n", i, q->src.clip[i].x1, q->src.clip[i].y1, q->src.clip[i].x2, q->src.clip[i].y2);
                 pixman_region_fini (&reg); } }
+        /* some of the drawing goes through the trapezoid entry point (its routes look at image flags and clip fields themselves): alpha-only destinations
+         * with ADD can be rasterised into directly */
+        int via_traps = !wo && (((L.dst.fmt == PIXMAN_a8 || L.dst.fmt == PIXMAN_a4 || L.dst.fmt == PIXMAN_a1) && vf_chance (r, 1, 2)) || vf_chance (r, 1, 10));
+        if (via_traps) {
+            pixman_trapezoid_t tz[2]; pixman_format_code_t mfmt = (L.dst.fmt == PIXMAN_a8 || L.dst.fmt == PIXMAN_a4 || L.dst.fmt == PIXMAN_a1) ? L.dst.fmt : PIXMAN_a8;
+            pixman_op_t top = vf_chance (r, 1, 2) ? PIXMAN_OP_ADD : L.op;
+            for (int i = 0; i < 2; i++) { tz[i].top = (pixman_fixed_t)vf_range (r, -65536, 65536); tz[i].bottom = (pixman_fixed_t)((L.dst.h + 1) * 65536) - (pixman_fixed_t)vf_range (r, 0, 2 * 65536);
+                tz[i].left.p1.x = (pixman_fixed_t)vf_range (r, -2 * 65536, 4 * 65536); tz[i].left.p1.y = tz[i].top; tz[i].left.p2.x = (pixman_fixed_t)vf_range (r, -2 * 65536, 4 * 65536); tz[i].left.p2.y = tz[i].bottom + 1;
+                tz[i].right.p1.x = (pixman_fixed_t)((L.dst.w + 2) * 65536) - (pixman_fixed_t)vf_range (r, 0, 5 * 65536); tz[i].right.p1.y = tz[i].top; tz[i].right.p2.x = tz[i].right.p1.x - (pixman_fixed_t)vf_range (r, 0, 65536); tz[i].right.p2.y = tz[i].bottom + 1; }
+            int xs = (int)vf_range (r, -2, 3), ys = (int)vf_range (r, -2, 2);
+            vf_inflight ("composite_trapezoids on long-lived images after %d steps: %s", step + 1, desc);
+            pixman_composite_trapezoids (top, L.src.img, L.dst.img, mfmt, xs, ys, 0, 0, 2, tz);
+            vf_inflight ("composite_trapezoids on fresh replicas: %s", desc);
+            pixman_composite_trapezoids (top, R.src.img, R.dst.img, mfmt, xs, ys, 0, 0, 2, tz);
+            vf_count ("composite_trapezoids_compared", 1);
+        } else {
         rq_run (&L);
         vf_inflight ("composite on fresh replicas: %s", desc);
         rq_run (&R);
+        }
         ncomp++;
         vf_count ("evaluations", 1); vf_count ("composites_compared", 1);
         vf_cell ("cells", vf_mix (rq_cell (&L), vf_hash (hist, strlen (hist), 9)));
